@@ -1550,10 +1550,22 @@ fn grid_ext(w: &mut W, e: usize) {
         2 => {
             w.block(2, "ext_len", |w| fill(w, 6, 0xe0));
         }
-        _ => {
+        3 => {
             // supported_versions (selected version 0x0304) + renegotiation_info
             w.block(2, "ext_len", |w| {
                 w.bytes(&[0x00, 0x2b, 0x00, 0x02, 0x03, 0x04, 0xff, 0x01, 0x00, 0x01, 0x00]);
+            });
+        }
+        4 => {
+            // supported_versions selecting DTLS 1.3 + key_share
+            w.block(2, "ext_len", |w| {
+                w.bytes(&[0x00, 0x2b, 0x00, 0x02, 0xfe, 0xfc, 0x00, 0x33, 0x00, 0x02, 0x00, 0x1d]);
+            });
+        }
+        _ => {
+            // client form: DTLS 1.3 and 1.2 offered, psk modes
+            w.block(2, "ext_len", |w| {
+                w.bytes(&[0x00, 0x2b, 0x00, 0x05, 0x04, 0xfe, 0xfc, 0xfe, 0xfd, 0x00, 0x2d, 0x00, 0x02, 0x01, 0x01]);
             });
         }
     }
@@ -1579,7 +1591,7 @@ pub fn hello_grid(server: bool, dtls: bool, full: bool, chunk: usize, nchunks: u
             for sid in [0usize, 32] {
                 for &c in CIPHER_REPS {
                     for &comp in &comps {
-                        for e in 0..4usize {
+                        for e in 0..6usize {
                             idx += 1;
                             if idx % nchunks != chunk {
                                 continue;
@@ -1681,6 +1693,25 @@ pub fn message_streams() -> Vec<(u8, Vec<u8>)> {
         fill(w, 66, 4);
     }).buf);
     v.push((0x16, pad(s, &|i| [0x14u8, 0, 0, 1, 9][i % 5])));
+    // every small message kind the decoder knows, one after the other (forwards and backwards), incl. the TLS 1.3 ones
+    {
+        let mut kinds: Vec<Vec<u8>> = small_handshake_messages().into_iter().map(|w| w.buf).filter(|b| b.len() <= 120).collect();
+        kinds.extend(tls13_messages().into_iter().map(|w| w.buf).filter(|b| b.len() <= 120));
+        kinds.extend(handshake_all_types().into_iter().map(|w| w.buf).filter(|b| b.len() <= 60 && matches!(b[0], 0 | 4 | 5 | 14 | 16 | 20 | 24 | 67)));
+        for rev in [false, true] {
+            let mut order: Vec<&Vec<u8>> = kinds.iter().collect();
+            if rev {
+                order.reverse();
+            }
+            let mut s = Vec::new();
+            while s.len() < N {
+                for k in &order {
+                    s.extend_from_slice(k);
+                }
+            }
+            v.push((0x16, s));
+        }
+    }
     // other content types
     v.push((0x15, pad(Vec::new(), &|i| [1u8, 0][i % 2])));
     v.push((0x15, pad(vec![2, 40], &|i| (i % 7) as u8)));
